@@ -129,7 +129,13 @@ func BuildGraph(p *core.Program) *Graph {
 	// dynTypes: the concrete types an interface value may hold, through conversions, phis, captured variables and (to a depth
 	// of 3) parameters
 	var dynTypes func(v ssa.Value, depth int) []types.Type
+	dynBusy := map[ssa.Value]bool{} // values on the current resolution path: loop-carried phis and cells refer to themselves
 	dynTypes = func(v ssa.Value, depth int) []types.Type {
+		if dynBusy[v] {
+			return nil
+		}
+		dynBusy[v] = true
+		defer delete(dynBusy, v)
 		switch x := v.(type) {
 		case *ssa.UnOp:
 			// a load from a captured variable's cell or a local cell: what was stored there
@@ -207,7 +213,13 @@ func BuildGraph(p *core.Program) *Graph {
 		return []types.Type{nil} // a source that cannot be followed: callers fall back to every implementer
 	}
 	var dynFuncs func(v ssa.Value, depth int) []*ssa.Function
+	funBusy := map[ssa.Value]bool{}
 	dynFuncs = func(v ssa.Value, depth int) []*ssa.Function {
+		if funBusy[v] {
+			return nil
+		}
+		funBusy[v] = true
+		defer delete(funBusy, v)
 		switch x := v.(type) {
 		case *ssa.Function:
 			return []*ssa.Function{x}
